@@ -53,6 +53,7 @@ struct Spec
   int nval = 0;
   std::vector<OVar> ov;
   std::vector<std::pair<int, int>> oe; // equality requests between object variables
+  std::vector<int> oe_after;           // per request: issued as soon as this many variables exist (0 = after all of them)
   std::vector<std::vector<int>> cl;    // clauses over signed slot numbers
   int depth = 0;                       // exploration depth for this network (0 = family default); not part of the text
   std::string alphabet;                // operations explored on this network ("" = family default); not part of the text
@@ -110,8 +111,8 @@ static std::string spec_txt(const Spec &s)
     t += " nval=" + std::to_string(s.nval);
     for (auto &v : s.ov)
       t += " ov:" + std::to_string(v.dom);
-    for (auto &e : s.oe)
-      t += " oe:" + std::to_string(e.first) + "," + std::to_string(e.second);
+    for (size_t i = 0; i < s.oe.size(); ++i)
+      t += " oe:" + std::to_string(s.oe[i].first) + "," + std::to_string(s.oe[i].second) + (i < s.oe_after.size() && s.oe_after[i] ? "@" + std::to_string(s.oe_after[i]) : "");
   }
   for (auto &c : s.cl)
     t += " cl:" + slots_txt(c);
@@ -214,8 +215,13 @@ static void parse_case(const std::string &txt, Spec &s, std::vector<Op> &h)
         s.ov.push_back(OVar{(unsigned)std::atoi(tok.c_str() + 3)});
       else if (tok.rfind("oe:", 0) == 0)
       {
-        auto v = parse_slots(tok.substr(3));
+        std::string body = tok.substr(3);
+        size_t at = body.find('@');
+        auto v = parse_slots(body.substr(0, at));
         s.oe.push_back({v[0], v[1]});
+        s.oe_after.resize(s.oe.size(), 0);
+        if (at != std::string::npos)
+          s.oe_after.back() = std::atoi(body.c_str() + at + 1);
       }
       else if (tok.rfind("cl:", 0) == 0)
         s.cl.push_back(parse_slots(tok.substr(3)));
@@ -389,12 +395,24 @@ static void build(Net &n, const Spec &s, bool initial_propagate = true)
           n.slot.push_back(n.ov->allows(ov, *n.vals[v]));
         }
       n.ov_slot.push_back(sl);
+      // equalities requested while later variables do not exist yet
+      for (size_t e = 0; e < s.oe.size(); ++e)
+        if (e < s.oe_after.size() && s.oe_after[e] == (int)n.ov_vars.size())
+        {
+          if (n.oe_slot.size() <= e)
+            n.oe_slot.resize(e + 1, 0);
+          n.oe_slot[e] = (int)n.slot.size();
+          n.slot.push_back(n.ov->new_eq(n.ov_vars[s.oe[e].first], n.ov_vars[s.oe[e].second]));
+        }
     }
-    for (auto &e : s.oe)
-    {
-      n.oe_slot.push_back((int)n.slot.size());
-      n.slot.push_back(n.ov->new_eq(n.ov_vars[e.first], n.ov_vars[e.second]));
-    }
+    for (size_t e = 0; e < s.oe.size(); ++e)
+      if (!(e < s.oe_after.size() && s.oe_after[e]))
+      {
+        if (n.oe_slot.size() <= e)
+          n.oe_slot.resize(e + 1, 0);
+        n.oe_slot[e] = (int)n.slot.size();
+        n.slot.push_back(n.ov->new_eq(n.ov_vars[s.oe[e].first], n.ov_vars[s.oe[e].second]));
+      }
   }
   for (auto &c : s.cl)
   {
@@ -463,6 +481,8 @@ static void make_ref(NetRef &R, const Spec &s, const Net &n)
 {
   int k = (int)n.sat.assigns.size();
   R.k = k;
+  if (getenv("VERIF_DEBUG_K"))
+    std::fprintf(stderr, "k=%d\n", k);
   TT not0 = ~TT::var(k, 0);
   R.lra_t = R.idl_t = R.rdl_t = TT(k, true);
   if (s.nlra)
@@ -1599,6 +1619,30 @@ static void families(const std::string &prop, const std::string &tier)
         t.oe = {{1, 0}, {0, 1}};
         g_specs.push_back(t);
       }
+    // interleaved: 5 (6) variables over 3 values (singleton and overlapping two-value domains); one equality is requested as soon
+    // as n1 variables exist, a second one after all of them: EVERY ordered pair at EVERY creation point x EVERY ordered
+    // pair at the end (the cache of equalities must not depend on when a pair was asked for)
+    {
+      int nv = th ? 6 : 5;
+      static const unsigned doms[] = {1, 3, 6, 3, 4, 5}; // a | ab | bc | ab | c | ac: few two-valued variables keep the truth tables small
+      for (int n1 = 2; n1 < nv; ++n1)
+        for (int a = 0; a < n1; ++a)
+          for (int b = 0; b < n1; ++b)
+            if (a != b)
+              for (int c = 0; c < nv; ++c)
+                for (int d = 0; d < nv; ++d)
+                  if (c != d)
+                  {
+                    Spec s;
+                    s.nval = 3;
+                    for (int i = 0; i < nv; ++i)
+                      s.ov.push_back(OVar{doms[i]});
+                    s.oe = {{a, b}, {c, d}};
+                    s.oe_after = {n1, 0};
+                    s.depth = th ? 2 : 1;
+                    g_specs.push_back(s);
+                  }
+    }
   }
 }
 
@@ -1656,7 +1700,7 @@ int main(int argc, char **argv)
     g_depth += dd;
     for (auto &sp : g_specs)
       if (sp.depth)
-        sp.depth += dd;
+        sp.depth = std::max(1, sp.depth + dd); // 0 would mean "family default"
   }
   if (args.has("split"))
     g_split = (int)args.num("split", g_split);
